@@ -275,7 +275,7 @@ def synth(w, blk, strat, n):
     except W.HarnessCap:
         raise
     except BaseException as e:   # noqa
-        if isinstance(e, (KeyboardInterrupt, SystemExit)) or type(e).__name__ == "CaseTimeout":
+        if isinstance(e, (KeyboardInterrupt, SystemExit)) or type(e).__name__ in ("CaseTimeout", "InnerTimeout"):
             raise
         w.log.append(("op", strat, n, "raise", type(e).__name__))
         return None, e
@@ -289,7 +289,7 @@ def construct(w, ast, **kw):
     try:
         blk, b = build.build_block(ast, **kw)
     except BaseException as e:   # noqa
-        if isinstance(e, (KeyboardInterrupt, SystemExit)) or type(e).__name__ == "CaseTimeout":
+        if isinstance(e, (KeyboardInterrupt, SystemExit)) or type(e).__name__ in ("CaseTimeout", "InnerTimeout"):
             raise
         w.log.append(("construct", "raise", type(e).__name__))
         return None, None, e
@@ -306,3 +306,100 @@ def result_base(w, **extra):
     d = {"digest": w.digest(), "counters": dict(w.counters), "faults": dict(w.fault_fired), "first_events": first_events(w)}
     d.update(extra)
     return d
+
+
+def innermost_frame_info(exc):
+    """(file:function, class name of `self` if any) of the innermost sweetpea frame of an exception."""
+    tb = exc.__traceback__
+    best = ("outside-sweetpea", None)
+    while tb is not None:
+        fn = tb.tb_frame.f_code.co_filename
+        if "/sweetpea/" in fn:
+            slf = tb.tb_frame.f_locals.get("self")
+            best = ("%s:%s" % (fn.split("/sweetpea/")[-1].replace("_internal/", ""), tb.tb_frame.f_code.co_name),
+                    type(slf).__name__ if slf is not None else None)
+        tb = tb.tb_next
+    return best
+
+
+class InnerTimeout(Exception):
+    pass
+
+
+class time_limit:
+    """Nested wall-clock guard that cooperates with runner.exec_case's ITIMER_REAL alarm."""
+
+    def __init__(self, seconds):
+        self.seconds = seconds
+
+    def __enter__(self):
+        import signal
+        import time
+
+        def handler(signum, frame):
+            raise InnerTimeout()
+        self.t0 = time.time()
+        self.old_handler = signal.signal(signal.SIGALRM, handler)
+        self.remaining, _ = signal.setitimer(signal.ITIMER_REAL, self.seconds)
+        return self
+
+    def __exit__(self, et, ev, tb):
+        import signal
+        import time
+        signal.setitimer(signal.ITIMER_REAL, 0)
+        signal.signal(signal.SIGALRM, self.old_handler)
+        if self.remaining:
+            left = max(0.01, self.remaining - (time.time() - self.t0))
+            signal.setitimer(signal.ITIMER_REAL, left)
+        return False
+
+
+def lib_multiset(m, res):
+    """Counter of printed sequences (over the model's design) for library output."""
+    from collections import Counter
+    c = Counter()
+    for e in res:
+        seq = refsem.named_to_seq(m, e)
+        if len(seq) != len(m.design):
+            c[("MISSING-FACTOR", tuple(sorted(map(str, e.keys()))))] += 1
+        else:
+            c[refsem.print_key(m, seq)] += 1
+    return c
+
+
+def enum_or_skip(m, tier, cap=None):
+    caps = {"quick": (300, 60000), "thorough": (2000, 600000)}[tier if tier in ("quick", "thorough") else "quick"]
+    try:
+        V = refsem.enumerate_valid(m, cap=cap or caps[0], node_cap=caps[1])
+    except refsem.TooBig:
+        return None
+    return V
+
+
+_KNOWN = None
+
+
+def known_signatures(prop):
+    """Signatures of recorded known findings (read-only): a check that sees several violations in one run reports
+    the first one that is NOT already recorded, so a frequent known defect cannot hide a new one."""
+    global _KNOWN
+    if _KNOWN is None:
+        import json, os
+        p = os.path.join(os.path.dirname(os.path.dirname(os.path.abspath(__file__))), "findings", "known_findings.json")
+        try:
+            with open(p) as f:
+                _KNOWN = json.load(f)
+        except OSError:
+            _KNOWN = []
+    return set(f["signature"] for f in _KNOWN if f.get("status") == "known" and f["property"] == prop)
+
+
+def pick_violation(prop, viols):
+    """viols: list of (signature, detail).  Prefer one that is not a recorded known finding."""
+    if not viols:
+        return None
+    known = known_signatures(prop)
+    for v in viols:
+        if v[0] not in known:
+            return v
+    return viols[0]
